@@ -62,6 +62,11 @@ def check_split_entry(ctx):
         lc = rets[0].value
         g = lc.generators[0]
         it = g.iter
+        if isinstance(it, ast.Name):
+            from ..astutil import local_defs
+            ds = local_defs(f.node).get(it.id, [])
+            if len(ds) == 1 and isinstance(ds[0], ast.AST):
+                it = ds[0]
         it_ok = isinstance(it, ast.Call) and is_attr(it.func, 'run', var) and [src(a) for a in it.args] == f.params[:2] and not it.keywords
         e = lc.elt
         sv = g.target.id if isinstance(g.target, ast.Name) else None
